@@ -176,7 +176,9 @@ pub fn print_impl_from<W: std::fmt::Write, T: FromTemplate>(
                             template,
                             &d.field_value,
                             ast,
-                            TypeResolve::UseTarget,
+                            // As for the other cases, decode the declared type
+                            // itself so the value matches the variant's type.
+                            TypeResolve::UseAlias,
                             try_from,
                         )?;
                         writeln!(w, "),")?;
